@@ -35,6 +35,7 @@ Separate Extraction
   Memtable.h_new Memtable.h_first Memtable.h_seek Memtable.h_next
   Engine.init Engine.put Engine.del Engine.apply_batch Engine.tx_commit Engine.get Engine.flush
   Engine.reopen Engine.run Engine.buffer_ops
+  Engine.mixed_batch Engine.merge_batch
   ReadOnly.start ReadOnly.step_client ReadOnly.step_repl ReadOnly.node_get ReadOnly.tx_get
   ReadOnly.node_scan ReadOnly.node_info ReadOnly.rw_open ReadOnly.any_open ApiView.api_view
   ReplProto.sys_init ReplProto.step ReplProto.settle ReplProto.views_agree ReplProto.scan_of
